@@ -50,6 +50,9 @@ pub fn gen_batch_spec(rng: &mut Rng, o: &BatchWorldOpts) -> AppSpec {
         let classes: Vec<u8> = (0..world.net.ne()).map(|_| rng.below(4) as u8).collect();
         world.frontier = FrontierCfg::RoadClass { classes, mapping: vec![] };
     }
+    if rng.chance(0.12) {
+        world.frontier = crate::restrict::gen_vehicle_cfg(rng, &world.net);
+    }
     if o.small_iteration_limit && rng.chance(0.4) {
         world.term = TermCfg::Iterations(rng.urange(2, 12) as u64);
     }
@@ -145,6 +148,9 @@ pub fn valid_query(rng: &mut Rng, spec: &AppSpec, qid: &str) -> Value {
     if has_plugin(spec, |p| matches!(p, InputPlugin::LoadBalancerCategorical { .. })) {
         q.insert("size".into(), json!(*rng.pick(&["small", "large", "zero", "unheard_of"])));
     }
+    if matches!(spec.world.frontier, FrontierCfg::Vehicle { .. }) {
+        q.insert("vehicle_parameters".into(), crate::restrict::random_vehicle_parameters(rng));
+    }
     if matches!(spec.world.frontier, FrontierCfg::RoadClass { .. }) && rng.chance(0.7) {
         q.insert("road_classes".into(), json!((0..4u8).filter(|_| rng.chance(0.7)).collect::<Vec<_>>()));
     }
@@ -195,7 +201,8 @@ pub fn grid_query(rng: &mut Rng, spec: &AppSpec, qid: &str) -> (Value, usize) {
     (q, n)
 }
 
-const MALFORMED: [&str; 14] = [
+const MALFORMED: [&str; 16] = [
+    "vehicle-parameters-missing", "vehicle-parameters-ill-typed",
     "missing-origin", "origin-string", "origin-negative", "origin-out-of-range", "destination-out-of-range", "origin-float", "weights-not-object",
     "unknown-road-class-type", "not-an-object-number", "not-an-object-array", "not-an-object-string", "null", "weight-estimate-not-numeric", "same-origin-destination",
 ];
@@ -216,6 +223,26 @@ pub fn malformed_query(rng: &mut Rng, spec: &AppSpec, qid: &str) -> (Value, &'st
         "origin-out-of-range" => q[okey] = if uses_coords { json!(1234.5) } else { json!(net.nv().max(net.ne()) + 1000) },
         "destination-out-of-range" => q[dkey] = if uses_coords { json!(-999.0) } else { json!(usize::MAX as u64) },
         "origin-float" => q[okey] = if uses_coords { json!(null) } else { json!(1.5) },
+        "vehicle-parameters-missing" => {
+            q.as_object_mut().unwrap().remove("vehicle_parameters");
+        }
+        "vehicle-parameters-ill-typed" => {
+            let mut vp = crate::restrict::random_vehicle_parameters(rng);
+            match rng.below(9) {
+                0 => vp = json!("a truck"),
+                1 => vp = json!([1, 2, 3]),
+                2 => vp["height"] = json!("tall"),
+                3 => vp["height"] = json!([3.5]),
+                4 => vp["width"] = json!([2.5, "furlongs"]),
+                5 => vp["number_of_axles"] = json!(0),
+                6 => vp["number_of_axles"] = json!(-2),
+                7 => vp["total_weight"] = json!([-5.0, "kg"]),
+                _ => {
+                    vp.as_object_mut().unwrap().remove("total_weight");
+                }
+            }
+            q["vehicle_parameters"] = vp;
+        }
         "weights-not-object" => q["weights"] = json!([1, 2]),
         "unknown-road-class-type" => q["road_classes"] = json!({"a": 1}),
         "not-an-object-number" => q = json!(42),
